@@ -128,6 +128,10 @@ def plan(tier, seed):
         (corner("real", prefix=A.LL, qubits=2, name="real-two-locals"), A.two_locals(), 3),
         # channel declaration order matters to the per-atom merge: DMM configured before the channels
         (corner("unit8", prefix=A.DG, qubits=3, name="unit8-dmm-first"), A.render(l="r", dmm="dmm_0", eom=False), 3),
+        (corner("mixed", prefix=A.GLD, qubits=3, qid_alias={"q0": 2, "q1": 0, "q2": 1}, name="mixed-dmm-int-ids-out-of-order"),
+         A.render(dmm="dmm_0", eom=False), 3),
+        (corner("unit8", prefix=A.GR, qubits=3, qid_alias={"q0": "z", "q1": "a", "q2": "m"}, name="unit8-str-ids-out-of-order"),
+         A.render(l="r"), 2),
     ]
     if tier == "thorough":
         worlds = [(w, a, d + 1) for w, a, d in worlds]
